@@ -191,10 +191,12 @@ class Module:
         if fn.args.kwarg:
             names.append(fn.args.kwarg.arg)
         env = {n: unknown(f"parameter {n} of {qual}") for n in names}
-        if self.file == "server.py" and qual == "Server.write_line" and "line" in env:
-            env["line"] = self.write_line_seed()
-        if self.file == "client.py" and qual.endswith(".command") and "command" in env and "censor_after" in env:
-            env["command"] = CCMD
+        pos = [a.arg for a in fn.args.posonlyargs + fn.args.args]
+        # parameters are identified by position / by the keyword callers use, not by the spelling of a positional name
+        if self.file == "server.py" and qual == "Server.write_line" and len(pos) == 3:  # write_line(self, stream, <line>)
+            env[pos[2]] = self.write_line_seed()
+        if self.file == "client.py" and qual.endswith(".command") and len(pos) >= 2 and "censor_after" in env:  # command(self, <command>, ..., censor_after=)
+            env[pos[1]] = CCMD
             env["censor_after"] = CENSOR_PARAM
         return env
 
@@ -727,13 +729,18 @@ def server_pass_facts(mod):
         if any(mod.is_log_call(n) for n in ast.walk(w)):
             deco_sinks.append("logging-call-in-wrapper")
         # info = f"bad sequence of commands ({message})" when fail_info is None
+        resp = [n for n in ast.walk(w) if isinstance(n, ast.Call) and src(n.func) == f"{wparams[1]}.response"]
+        if len(resp) != 1 or len(resp[0].args) != 2 or src(resp[0].args[0]) != "self.fail_code" or not isinstance(resp[0].args[1], ast.Name):
+            raise Unclassified("ConnectionConditions wrapper: reply shape")
+        info_var = resp[0].args[1].id  # the local handed to connection.response as the reply text
+        message_vars = {  # the second loop variable of `for <future>, <message> in <dict>.items()`
+            n.target.elts[1].id for n in ast.walk(w)
+            if isinstance(n, ast.For) and isinstance(n.target, ast.Tuple) and len(n.target.elts) == 2 and isinstance(n.target.elts[1], ast.Name)
+        }
         tmpl = None
         for n in ast.walk(w):
-            if isinstance(n, ast.Assign) and isinstance(n.targets[0], ast.Name) and n.targets[0].id == "info" and isinstance(n.value, ast.JoinedStr):
+            if isinstance(n, ast.Assign) and isinstance(n.targets[0], ast.Name) and n.targets[0].id == info_var and isinstance(n.value, ast.JoinedStr):
                 tmpl = n.value
-        resp = [n for n in ast.walk(w) if isinstance(n, ast.Call) and src(n.func) == f"{wparams[1]}.response"]
-        if len(resp) != 1 or [src(a) for a in resp[0].args] != ["self.fail_code", "info"]:
-            raise Unclassified("ConnectionConditions wrapper: reply shape")
         for a in d.args:
             if not (isinstance(a, ast.Attribute) and src(a.value) == "ConnectionConditions" and a.attr in consts):
                 raise Unclassified(f"ConnectionConditions argument {src(a)}")
@@ -747,7 +754,7 @@ def server_pass_facts(mod):
                 for p in tmpl.values:
                     if isinstance(p, ast.Constant):
                         info += p.value
-                    elif isinstance(p, ast.FormattedValue) and isinstance(p.value, ast.Name) and p.value.id == "message" and p.conversion == -1 and p.format_spec is None:
+                    elif isinstance(p, ast.FormattedValue) and isinstance(p.value, ast.Name) and p.value.id in message_vars and p.conversion == -1 and p.format_spec is None:
                         info += message
                     else:
                         raise Unclassified(f"ConnectionConditions info template part {src(p)}")
@@ -756,7 +763,7 @@ def server_pass_facts(mod):
     disp = server["dispatcher"]
     unknown_names = None
     for n in ast.walk(disp):
-        if isinstance(n, ast.Call) and src(n.func) == "connection.response" and n.args and isinstance(n.args[0], ast.Constant) and n.args[0].value == "502":
+        if isinstance(n, ast.Call) and isinstance(n.func, ast.Attribute) and n.func.attr == "response" and n.args and isinstance(n.args[0], ast.Constant) and n.args[0].value == "502":
             a = n.args[1]
             if isinstance(a, ast.Name):
                 vals = [m.value for m in ast.walk(disp) if isinstance(m, ast.Assign) and isinstance(m.targets[0], ast.Name) and m.targets[0].id == a.id]
@@ -1119,14 +1126,18 @@ def client_login_program(mod):
             return [x.value for x in e.elts]
         raise Unclassified(f"login: expected codes {src(e)[:60]} are not literals")
 
+    reply_vars = []  # [<code>, <info>]: the locals every self.command(...) result is unpacked into (named by binding)
+
     def command_call(st):
         """`code, info = await self.command(A, CODES [, censor_after=X])` -> (A, codes, X or None)"""
         if not (
             isinstance(st, ast.Assign) and len(st.targets) == 1 and isinstance(st.targets[0], ast.Tuple)
-            and [src(t) for t in st.targets[0].elts] == ["code", "info"]
+            and len(st.targets[0].elts) == 2 and all(isinstance(t, ast.Name) for t in st.targets[0].elts)
+            and (not reply_vars or [t.id for t in st.targets[0].elts] == reply_vars[0])
             and isinstance(st.value, ast.Await) and isinstance(st.value.value, ast.Call) and src(st.value.value.func) == "self.command"
         ):
-            raise Unclassified(f"login: expected `code, info = await self.command(...)`, found {src(st)[:60]}")
+            raise Unclassified(f"login: expected `<code>, <info> = await self.command(...)`, found {src(st)[:60]}")
+        reply_vars.append([t.id for t in st.targets[0].elts])
         c = st.value.value
         kw = {k.arg: k.value for k in c.keywords}
         if None in kw or set(kw) - {"censor_after", "expected_codes"} or not (1 <= len(c.args) <= 2):
@@ -1142,6 +1153,7 @@ def client_login_program(mod):
     if cen0 is not None:
         raise Unclassified("login: the first command passes censor_after")
     first_prefix, first_arg = lit_plus_param(a0)
+    code_var = reply_vars[0][0]
     loops = [i for i, st in enumerate(body) if isinstance(st, ast.While)]
     if len(loops) != 1:
         raise Unclassified("login: expected exactly one while loop")
@@ -1149,7 +1161,7 @@ def client_login_program(mod):
     loop = body[wi]
     t = loop.test
     if not (
-        isinstance(t, ast.Call) and src(t.func) == "code.matches" and len(t.args) == 1 and not t.keywords
+        isinstance(t, ast.Call) and src(t.func) == f"{code_var}.matches" and len(t.args) == 1 and not t.keywords
         and isinstance(t.args[0], ast.Constant) and isinstance(t.args[0].value, str) and not loop.orelse
     ):
         raise Unclassified(f"login: loop condition {src(t)[:60]} (expected code.matches('MASK'))")
@@ -1199,7 +1211,7 @@ def client_login_program(mod):
     while True:
         c = node.test
         if not (
-            isinstance(c, ast.Compare) and len(c.ops) == 1 and isinstance(c.ops[0], ast.Eq) and src(c.left) == "code"
+            isinstance(c, ast.Compare) and len(c.ops) == 1 and isinstance(c.ops[0], ast.Eq) and src(c.left) == code_var
             and isinstance(c.comparators[0], ast.Constant) and isinstance(c.comparators[0].value, str)
         ):
             raise Unclassified(f"login: branch condition {src(c)[:60]} (expected code == 'NNN')")
@@ -1263,7 +1275,10 @@ def client_password_uses(mod):
                 f = mod.parent[f]
             p = mod.parent[n]
             if isinstance(p, ast.Call) and n in p.args:
-                shape = "arg:" + src(p.func)
+                if isinstance(p.func, ast.Attribute) and isinstance(p.func.value, ast.Name) and p.func.value.id not in ("self", "cls"):
+                    shape = "arg:@obj." + p.func.attr  # a method of a local object (whatever the local is called)
+                else:
+                    shape = "arg:" + src(p.func)
             elif isinstance(p, ast.BinOp) and isinstance(p.left, ast.Constant):
                 shape = "concat:" + repr(p.left.value)
             else:
@@ -1316,11 +1331,9 @@ def generate(src_dir):
     rows = []
     for s in sites:
         rows.append(
-            "  (* %s:%d  %s *)\n  {| ls_file := %s; ls_func := %s; ls_level := %s; ls_fmt := %s;\n     ls_srcs := [%s] |}"
+            # no source text and no line number in the output: a fact must not change when locals are renamed or lines move
+            "  {| ls_file := %s; ls_func := %s; ls_level := %s; ls_fmt := %s;\n     ls_srcs := [%s] |}"
             % (
-                s["file"],
-                s["line"],
-                s["level"],
                 S(s["file"]),
                 S(s["func"]),
                 S(s["level"]),
